@@ -389,14 +389,19 @@ theorem shared_image_header_counterexample :
 /-- The decision rule for "a whole-array read hands out a read-only array", spelled out: the proxy was
     given `mmap='r'` AND its file is an uncompressed file on disk AND the header scaling is (1, 0) (or
     absent) AND the read converts nothing (no dtype asked, or the storage dtype in the machine's byte
-    order).  `mmap=True` means `'c'` (copy-on-write): never read-only. -/
+    order).  `mmap=True` means `'c'` (copy-on-write) — read from the current source on every run
+    (`Gen.C13.mmapTrueMode`) — hence never read-only. -/
 theorem readonly_read_iff (p : Par) (d : Option DT) :
     p.readRO d = true ↔
       (p.io.mmap = .r ∧ p.io.file = .path ∧ p.slope = 1 ∧ p.inter = 0 ∧
         (d = none ∨ (d = some p.dt ∧ p.io.swapped = false))) := by
+  have h1 : MMap.modeRO "c" = some false := by decide
+  have h2 : MMap.modeRO "r" = some true := by decide
+  -- `True` means `'c'` in the CURRENT source (Generated/C13Consts.lean): this line fails if that changes
+  have h3 : MMap.modeRO Gen.C13.mmapTrueMode = some false := by decide
   rcases p with ⟨dt, sl, it, ⟨mm, fk, sw⟩⟩
   cases mm <;> cases fk <;> cases sw <;> cases d <;>
-    simp [Par.readRO, IOp.roMap, IOp.mapMode, and_assoc]
+    simp [Par.readRO, IOp.roMap, IOp.mapMode, and_assoc, h1, h2, h3]
 
 example : (Par.ofHdr ⟨none, 2, .f4⟩ ⟨.r, .path, false⟩).readRO (some .f4) = true ∧
     (Par.ofHdr ⟨none, 2, .f4⟩ ⟨.r, .path, true⟩).readRO (some .f4) = false ∧
@@ -428,5 +433,37 @@ theorem readonly_edit_is_noop (s : State) (k : Nat) (hro : (s.get k).ro = true) 
 example : let s := run (initProxy [3, 4] ⟨none, 2, .f4⟩ ⟨.r, .path, false⟩) [.getFdata .fill .f4]
     (s.get 0).ro = true ∧ s.fcache = some 0 ∧
     (step (step s (.edit 0)).1 (.getFdata .unchanged .f4)).2.res = .arr 0 ⟨.f4, [3, 4], true⟩ := by decide
+
+/-! ## Constants of the current source (Generated/C13Consts.lean, rewritten by `regen()` on every run) -/
+
+/-- What the model and the `spell` stream take for granted, checked against the constants extracted from
+    the working tree: `get_fdata()` is `get_fdata(caching='fill', dtype=np.float64)` and `get_data()` is
+    `get_data(caching='fill')`; the accepted `caching` strings are exactly the two non-`other` values of
+    `Caching`; `ArrayProxy` substitutes (1, 0) for a missing slope / intercept both for a header spec
+    (`Par.ofHdr`) and for a short tuple spec, with offset 0; the accepted `mmap` values are the four of
+    `MMap`, and `True` selects a copy-on-write map. -/
+theorem source_constants :
+    Caching.ofStr Gen.C13.getFdataDefaultCaching = .fill ∧
+    DT.ofNp Gen.C13.getFdataDefaultDtype = some .f8 ∧
+    Caching.ofStr Gen.C13.getDataDefaultCaching = .fill ∧
+    Gen.C13.getFdataCachingValues.map Caching.ofStr = [.fill, .unchanged] ∧
+    Gen.C13.getDataCachingValues.map Caching.ofStr = [.fill, .unchanged] ∧
+    (∀ h : Hdr, ∀ io : IOp, h.scale = none →
+      Par.ofHdr h io = ⟨h.dt, Gen.C13.proxyTupleSlope, Gen.C13.proxyTupleInter, io⟩ ∧
+      (Par.ofHdr h io).outDt = h.dt ∧ ∀ raw, (Par.ofHdr h io).scaled raw = raw) ∧
+    Gen.C13.proxyTupleOffset = 0 ∧
+    Gen.C13.proxyMmapValues = ["True", "False", "c", "r"] ∧
+    MMap.modeRO Gen.C13.mmapTrueMode = some false := by
+  refine ⟨by decide, by decide, by decide, by decide, by decide, ?_, by decide, by decide, by decide⟩
+  intro h io hs
+  have hp : Par.ofHdr h io = ⟨h.dt, 1, 0, io⟩ := by simp [Par.ofHdr, hs]; decide
+  have e1 : Gen.C13.proxyTupleSlope = 1 := by decide
+  have e2 : Gen.C13.proxyTupleInter = 0 := by decide
+  refine ⟨by rw [hp, e1, e2], by rw [hp]; simp [Par.outDt], ?_⟩
+  intro raw
+  rw [hp]
+  simp [Par.scaled]
+
+example : (⟨none, 2, .f4⟩ : Hdr).scale = none := rfl
 
 end Nb.C13
